@@ -268,12 +268,8 @@ class StereoCondensedReactionGraph(StereoMolGraph, CondensedReactionGraph):
         :param mapping: Mapping of old atom ids to new atom ids
         :param copy: If the graph should be copied before relabeling,
                      defaults to True
-        :return: Returns the relabeled graph or None if copy is False
+        :return: Returns the relabeled graph (self if copy is False)
         """
-        relabeled_scrg = self.__class__(
-            super().relabel_atoms(mapping, copy=copy)
-        )
-
         atom_stereo_change: dict[AtomId, ChangeDict[AtomStereo]] = {}
 
         for atom, stereo_change_dict in self._atom_stereo_change.items():
@@ -287,7 +283,7 @@ class StereoCondensedReactionGraph(StereoMolGraph, CondensedReactionGraph):
                     atom_stereo.parity,
                 )
                 atom_stereo_change.setdefault(
-                    mapping[atom], ChangeDict[AtomStereo]()
+                    mapping.get(atom, atom), ChangeDict[AtomStereo]()
                 )[stereo_change] = new_stereo
 
         bond_stereo_change: dict[Bond, ChangeDict[BondStereo]] = {}
@@ -296,7 +292,7 @@ class StereoCondensedReactionGraph(StereoMolGraph, CondensedReactionGraph):
             for stereo_change, bond_stereo in stereo_change_dict.items():
                 if bond_stereo is None:
                     continue
-                new_bond = Bond(mapping[a] for a in bond)
+                new_bond = Bond(mapping.get(a, a) for a in bond)
                 new_stereo = bond_stereo.__class__(
                     tuple(
                         mapping.get(atom, atom) for atom in bond_stereo.atoms
@@ -307,13 +303,9 @@ class StereoCondensedReactionGraph(StereoMolGraph, CondensedReactionGraph):
                     new_bond, ChangeDict[BondStereo]()
                 )[stereo_change] = new_stereo
 
-        if copy is True:
-            relabeled_scrg._atom_stereo_change = atom_stereo_change
-            relabeled_scrg._bond_stereo_change = bond_stereo_change
-        else:
-            self._atom_stereo_change = atom_stereo_change
-            self._bond_stereo_change = bond_stereo_change
-
+        relabeled_scrg = super().relabel_atoms(mapping, copy=copy)
+        relabeled_scrg._atom_stereo_change = atom_stereo_change
+        relabeled_scrg._bond_stereo_change = bond_stereo_change
         return relabeled_scrg
 
     def reactant(self, keep_attributes: bool = True) -> StereoMolGraph:
